@@ -122,7 +122,17 @@ func (c *Ctx) ensureSort(s Sort) {
 		if c.seen["sort:"+s] {
 			return
 		}
-		// element sort is recorded at creation time
+		// element sort is recorded (globally) at creation time
+		if el, ok := sliceElem[s]; ok {
+			c.sliceSortOf(el)
+		}
+	case strings.HasPrefix(s, "Seq_"):
+		if c.seen["sort:"+s] {
+			return
+		}
+		if el, ok := seqElem[s]; ok {
+			c.seqSort(el)
+		}
 	default:
 		if strings.HasPrefix(s, "V_") && !c.seen["sort:"+s] {
 			if t := c.eng.lookupVSort(s); t != nil {
@@ -299,10 +309,10 @@ func (c *Ctx) typeFacts(v Val) []string {
 		out = append(out, fmt.Sprintf("(and (<= %s %s) (<= %s %s))", smtInt(lo), v.T, v.T, smtInt(hi)))
 	}
 	if isSliceSort(v.S) {
-		out = append(out, fmt.Sprintf("(>= %s 0)", sLen(v)), fmt.Sprintf("(=> %s (= %s 0))", sNil(v), sLen(v)))
+		out = append(out, fmt.Sprintf("(>= %s 0)", sLen(v)), fmt.Sprintf("(<= %s 9223372036854775807)", sLen(v)), fmt.Sprintf("(=> %s (= %s 0))", sNil(v), sLen(v)))
 	}
 	if v.S == "Str" {
-		out = append(out, fmt.Sprintf("(>= (len!Str %s) 0)", v.T))
+		out = append(out, fmt.Sprintf("(>= (len!Str %s) 0)", v.T), fmt.Sprintf("(<= (len!Str %s) 9223372036854775807)", v.T))
 	}
 	if v.S == "Iface" {
 		out = append(out, fmt.Sprintf("(>= (itag %s) 0)", v.T), fmt.Sprintf("(=> (= (itag %s) 0) (= (iref %s) 0))", v.T, v.T))
